@@ -19,6 +19,7 @@
 #include "util/internal.h"
 
 #include "dbformat.h"
+#include "util/verif.h"
 
 /*
  * Types
@@ -84,6 +85,8 @@ ldb_snaplist_new(ldb_snaplist_t *list, ldb_seqnum_t sequence) {
   assert(ldb_snaplist_empty(list) ||
          ldb_snaplist_newest(list)->sequence <= sequence);
 
+  LCDB_ACC("snaplist", list, 1);
+
   snap = ldb_malloc(sizeof(ldb_snapshot_t));
 
   snap->sequence = sequence;
@@ -114,6 +117,8 @@ ldb_snaplist_delete(ldb_snaplist_t *list, const ldb_snapshot_t *snap) {
 #else
   (void)list;
 #endif
+
+  LCDB_ACC("snaplist", list, 1);
 
   snap->prev->next = snap->next;
   snap->next->prev = snap->prev;
